@@ -161,7 +161,7 @@ class SchemaGen:
             return [payload(r, self.ph) if self.coin(0.6) else r.randint(0, 5) for _ in range(r.randint(0, 3))]
         return None
 
-    def obj(self, depth, top=False):
+    def obj(self, depth, top=False, main=False):
         r = self.rng
         n = r.choice([0, 1, 1, 2, 2, 3, 4]) if not top else r.choice([1, 2, 2, 3, 4, 5])
         names = r.sample(NAMES, n)
@@ -187,8 +187,9 @@ class SchemaGen:
             s["required"] = req
         if self.coin(0.85):
             s["additionalProperties"] = r.choice([True, False])
-        # avoid the single-field collapse unless leaving the fragment on purpose
-        if (len(names) == 1 and s.get("additionalProperties") is False and "required" in s
+        # the field-wrapper form exists for the top-level class only: avoid it there unless leaving
+        # the fragment on purpose; nested objects and definitions of that shape are in the fragment
+        if (main and len(names) == 1 and s.get("additionalProperties") is False and "required" in s
                 and set(s["required"]) - set(with_default) == set(names) and not self.coin(self.po)):
             s["additionalProperties"] = True
         return s
@@ -264,11 +265,11 @@ def gen_case(rng, tier, idx, p_hostile=None, p_odd=None):
         visible = def_names if forward else def_names[:k]
         visible = [v for v in visible if v != dn]
         g = SchemaGen(rng, depth, ph, po, visible)
-        defs.append([dn, g.obj(1, top=True)])
+        defs.append([dn, g.obj(1, top=rng.random() < 0.8)])
     g = SchemaGen(rng, depth, ph, po, def_names)
     r = rng.random()
     if r < 0.8:
-        schema = g.obj(0, top=True)
+        schema = g.obj(0, top=True, main=True)
     elif r < 0.97 or po == 0:
         schema = g.schema(1)
         if schema.get("type") == "object" and "properties" not in schema:
@@ -747,7 +748,7 @@ def judge(case, impl, model):
     else:
         got = norm_schema(impl["back"])
         got_defs = {n: norm_schema(d) for n, d in impl["backDefs"].items()}
-    if phase_m == "ok" and "back" in model and not unfaithful and "collapse-after-required-mutation" not in issues:
+    if phase_m == "ok" and "back" in model and not unfaithful:
         mback = norm_schema(unwire_schema(model["back"]))
         # definitions the real mapping visits = those reachable from what the class still refers to
         reach_m = reachable_defs(unwire_schema(model["back"]), defs)
